@@ -185,6 +185,17 @@ def evaluate(cfg):
     jax, jnp, np, eqx, jinns = jx()
     us, PD, L, batch, singles, obs = build(cfg)
     tot, terms = (L if cfg.get("via_call") else L.evaluate)(PD, batch)       # the loss object is callable: same thing
+    # the same object again on a batch WITHOUT observations, then on the first batch once more: an evaluation leaves nothing
+    # behind in the loss object (no observation term without observations; the first result comes back)
+    if obs is not None:
+        import dataclasses
+        bare = type(batch)(**{f.name: (None if f.name == "obs_batch_dict" else getattr(batch, f.name)) for f in dataclasses.fields(batch)})
+        _, t2 = L.evaluate(PD, bare)
+        tot3, t3 = L.evaluate(PD, batch)
+        if float(t2.get("observations", 0.0)) != 0.0:
+            cfg.setdefault("_seq_fails", []).append(f"a batch without observations evaluated after one with observations has an observation term of {float(t2['observations'])}")
+        if float(tot3) != float(tot) or any(float(t3[k]) != float(terms[k]) for k in terms):
+            cfg.setdefault("_seq_fails", []).append("the same system loss on the same batch gives another result after a different batch was evaluated in between")
     sing = {}
     for k, S in singles.items():
         b = jinns.data.append_obs_batch(batch, None if obs is None else obs[k])
@@ -276,6 +287,8 @@ def generate(tier, seed, casedir, variant):
         except Exception as ex:
             viol.append({"detail": f"system loss raised {type(ex).__name__}: {str(ex)[:200]}", "case": jsonable(cfg)})
             continue
+        for f in cfg.pop("_seq_fails", []):
+            viol.append({"detail": f, "case": jsonable(cfg)})
         cases.append(case_term(cid, cfg, terms, sing)); meta[cid] = jsonable(cfg)
         if abs(tot - sum(terms.values())) > 1e-12 * (1 + abs(tot)):
             viol.append({"detail": f"total {tot} is not the sum of the returned terms", "case": jsonable(cfg)})
